@@ -14,6 +14,7 @@ import CTV.Gen.Tls
 * `struct fs`   – a struct; a field is either plain or a variant (`*T` with `selector:S,val:V`)
 * `bad`         – every shape the codec refuses in both directions whatever the data
                   (pointer that is not a variant, non-byte array, enum / slice without field info, …)
+* `ro t`        – an unexported or blank struct field of shape `t`: `Marshal` reads it, `Unmarshal` cannot set it
 
 `enc` mirrors `marshalField`, `dec` mirrors `parseField`, including the bookkeeping for variants
 (`enums`, `selectorSeen`: "selector not seen", "unchosen field is non-nil", "chosen field is nil",
@@ -55,6 +56,8 @@ inductive Ty where
   | vec (i : Info) (e : Ty)
   | struct (fs : Fields)
   | bad
+  /-- a field reflection can read but not set (unexported or blank `_` struct field): encodes like `t`, never decodes -/
+  | ro (t : Ty)
 inductive Fields where
   | nil
   | plain (name : String) (t : Ty) (rest : Fields)
@@ -77,6 +80,7 @@ deriving Repr, Inhabited
 def Ty.isSel : Ty → Bool
   | .uint w => w == 8
   | .enum _ => true
+  | .ro t => t.isSel
   | _ => false
 
 abbrev Env := List (String × Nat)
@@ -139,6 +143,7 @@ def enc : Ty → Val → Except Err Bytes
     | .struct vs => encFields [] [] [] fs vs
     | _ => .error .structural
   | .bad, _ => .error .unsupported
+  | .ro t, v => enc t v
 /-- `env` = `enums`, `men` = selectors mentioned so far, `tak` = selectors whose value found its field. -/
 def encFields (env : Env) (men tak : List String) : Fields → List Val → Except Err Bytes
   | .nil, vs =>
@@ -181,7 +186,11 @@ end
 
 /-! ## Decoding (`parseField`) -/
 
-/-- `readVarUint`: `count` big-endian bytes, then `check`. -/
+/-- `readVarUint`: `count` big-endian bytes, then `check`.
+For `count > 8` Go's accumulator `result << 8` wraps modulo 2^64 where this model keeps the full number (and `check` then
+refuses it because of its `v < 2^64` guard).  No tag yields such a width once the 1…8 test applies to every sized info
+(finding F14, `C09TagWidth.tag_width`); until then the difference is confined to `size:9,selector:…` shapes, where
+`Marshal` panics anyway. -/
 def readVar (i : Info) (bs : Bytes) : Except Err (Nat × Bytes) :=
   if !i.countSet then .error .structural
   else if bs.length < i.count then .error .truncated
@@ -234,6 +243,7 @@ def dec : Ty → Bytes → Except Err (Val × Bytes)
     | .error e => .error e
     | .ok (vs, rest) => .ok (.struct vs, rest)
   | .bad, _ => .error .unsupported
+  | .ro _, _ => .error .structural
 def decFields (env : Env) (men tak : List String) : Fields → Bytes → Except Err (List Val × Bytes)
   | .nil, bs => if allTaken men tak then .ok ([], bs) else .error .range
   | .plain name t rest, bs =>
@@ -283,6 +293,7 @@ def Ty.pos : Ty → Bool
   | .vec i _ => decide (0 < i.count)
   | .struct fs => fs.pos
   | .bad => false
+  | .ro t => t.pos
 def Fields.pos : Fields → Bool
   | .nil => false
   | .plain _ t rest => t.pos || rest.pos
@@ -298,6 +309,7 @@ def Ty.wf : Ty → Bool
   | .vec i e => i.wf && e.wf && e.pos
   | .struct fs => fs.wf
   | .bad => false
+  | .ro _ => false
 def Fields.wf : Fields → Bool
   | .nil => true
   | .plain _ t rest => t.wf && rest.wf
